@@ -64,7 +64,25 @@ fn decode(tape: &[u32], tier: Tier) -> Case {
             spec.layers.push(LayerSpec::Dense { out: t.usize(1, 5), act: ActK::Sigmoid, bias: t.bool(), dropout: None });
         }
     }
-    Case { spec, obj, softmax_ce, wseed: t.raw(), wmode: 1 + 2 * t.pick(2) as u32, xseed: t.raw(), tseed: t.raw(), learn_step: t.chance(1, 3), isolation, connects: vec![] }
+    let wmode = [1u32, 3, 5, 6][t.pick(4)];
+    if wmode >= 5 {
+        // exact zeros sit on the ReLU-family kink: use smooth activations in these cases
+        fn smooth(l: &mut LayerSpec) {
+            match l {
+                LayerSpec::Dense { act, .. } | LayerSpec::Conv { act, .. } | LayerSpec::Deconv { act, .. } => {
+                    if *act == ActK::ReLU {
+                        *act = ActK::Tanh;
+                    } else if *act == ActK::Leaky {
+                        *act = ActK::Sigmoid;
+                    }
+                }
+                LayerSpec::Feedback { layers, .. } => layers.iter_mut().for_each(smooth),
+                LayerSpec::Pool { .. } => {}
+            }
+        }
+        spec.layers.iter_mut().for_each(smooth);
+    }
+    Case { spec, obj, softmax_ce, wseed: t.raw(), wmode, xseed: t.raw(), tseed: t.raw(), learn_step: t.chance(1, 3), isolation, connects: vec![] }
 }
 
 #[derive(Clone, Copy, PartialEq)]
@@ -163,11 +181,36 @@ pub fn check(case: &Case, ev: &mut CaseEv, tier: Tier) -> CheckResult {
         Ok(n)
     };
     let mut net = build_c(spec).map_err(|p| Fail::new(format!("valid architecture rejected: {} ({:?}, connections {:?})", p, spec, case.connects)))?;
-    let ps = seeded_params(&net, spec, case.wseed, case.wmode, 1.5);
+    // wmode 5: one whole parameter tensor (e.g. a filter) is exactly zero; wmode 6: some inputs are exactly zero
+    let mut ps = seeded_params(&net, spec, case.wseed, if case.wmode >= 5 { 1 } else { case.wmode }, 1.5);
+    if case.wmode == 5 && !ps.is_empty() {
+        let k = (case.wseed as usize / 7) % ps.len();
+        let d = tensor_dims(&ps[k].1);
+        ps[k].1 = tens::build(&d, &vec![0.0; count(&d)]);
+        // tied copies of a feedback block stay tied
+        let (r0, zero) = (ps[k].0, ps[k].1.clone());
+        if let (LayerSpec::Feedback { layers, .. }, Some(j)) = (&spec.layers[r0.layer], r0.inner) {
+            let len = layers.len();
+            for (r, t) in ps.iter_mut() {
+                if r.layer == r0.layer && r.tensor == r0.tensor && r.inner.map(|x| x % len) == Some(j % len) {
+                    *t = zero.clone();
+                }
+            }
+        }
+        ev.class("a parameter tensor exactly zero");
+    }
     apply_params(&mut net, &ps);
     let rps = to_ref_params(&ps);
     let n_in = count(&spec.input);
-    let x = payload(case.xseed, 3, n_in, 1.0);
+    let mut x = payload(case.xseed, 3, n_in, 1.0);
+    if case.wmode == 6 {
+        for (i, v) in x.iter_mut().enumerate() {
+            if (case.xseed as usize >> (i % 24)) & 1 == 0 {
+                *v = 0.0;
+            }
+        }
+        ev.class("exact zeros in the input");
+    }
     let xd: Vec<f64> = x.iter().map(|v| *v as f64).collect();
     let xt = tens::build(&spec.input, &x);
 
